@@ -560,6 +560,10 @@ func hMsg(hashFunction HashFunction, out, in, key []uint8, n uint32) error {
 	if uint32(len(key)) != 3*n {
 		return errors.New(fmt.Sprintf("H_msg takes 3n-bit keys, we got n=%d but a keylength of %d.\n", n, len(key)))
 	}
+	// the hash input is assembled with 32-bit length arithmetic: refuse instead of wrapping around
+	if uint64(len(in))+uint64(n)+uint64(len(key)) > 0xFFFFFFFF {
+		return errors.New("H_msg: message too long")
+	}
 	coreHash(hashFunction, out, 2, key, uint32(len(key)), in, uint32(len(in)), n)
 	return nil
 }
